@@ -13,7 +13,7 @@ from mc.common import HarnessError, Stats, pmap, safe, shards
 PROPERTY = 'C20'
 LEVEL = 'exploration'
 RULE = ('generate_correlated: every non-constant source column of length 4 over {0,1,2} (+ longer generated columns) x r in {-0.9,-0.5,-0.1,0.1,0.5,0.8,0.99} x the normal draw replaced by each '
-        'of 12 fixed non-collinear vectors, single index / index list / every subset of <= 2 columns; generate_duplicates / generate_combinations (linear, nonlinear, _xor, _and, _or) for every '
+        'of 12 fixed non-collinear vectors, single index / index list / every subset of <= 2 columns, and chains of calls on one generator instance with changing data; generate_duplicates / generate_combinations (linear, nonlinear, _xor, _and, _or) for every '
         'index selection of <= 3 columns; dataset_info after every sequence of <= 3 generator calls; generate_labels for n in {2,3,4}, p scalar / list / array on tie-free decision values, every '
         'composition of 1 into n parts with step 0.1; generate_noise categorical and missing for p in {0,0.2,0.5,0.99} with every choice of cells under a controlled generator (n<=4) and over a seed '
         'window beyond; downsample_dataset for every n <= minority size x seeds x reshuffle. distinct_nontrivial = cases with a non-empty declared effect (>=1 column added / >=2 classes / >=1 cell flipped)')
@@ -119,6 +119,41 @@ def _corr_job(job):
                         st.violation({'kind': 'correlated', 'cols': [list(s), other], 'indices': indices, 'r': r, 'normal': vi}, msg, {'kind': kind})
     if lo == 0:
         st.sample({'kind': 'correlated', 'cols': [list(srcs[0]), other], 'indices': 0, 'r': 0.8, 'normal': 0})
+    return st
+
+
+def judge_chain(sources, r, vec):
+    """one generator instance, successive generate_correlated calls on DIFFERENT data sets of the same shape and index"""
+    g = gen_cls()()
+    fails = []
+    for step, s in enumerate(sources):
+        X = np.array([list(s), [2, 0, 1, 1]], dtype=float).T
+        if collinear(s, vec):
+            continue
+        ok, out = safe(with_normal, vec, g.generate_correlated, X, 0, r)
+        if not ok:
+            return [('exception', f'call {step} raised {out}')]
+        c = float(np.corrcoef(X[:, 0], out[:, 2])[0, 1])
+        if not abs(c - r) <= 1e-6:
+            fails.append(('correlation_chain', f'call {step + 1} on the same generator instance: source {list(s)}, r={r}: generated feature has correlation {c!r}'))
+            break
+    return fails
+
+
+def _corr_chain(job):
+    lo, hi = job
+    st = Stats()
+    srcs = [s for s in itertools.product([0, 1, 2], repeat=4) if len(set(s)) > 1]
+    menu = normal_menu(4)
+    for i in range(lo, hi):
+        chain = [srcs[i], srcs[(i + 1) % len(srcs)], srcs[(i + 7) % len(srcs)], srcs[i]]
+        for r in (0.8, -0.5):
+            for vi in (0, 1, 5):
+                st.count('evaluations')
+                st.count('nontrivial')
+                st.count('correlated_chain_cases')
+                for kind, msg in judge_chain(chain, r, menu[vi]):
+                    st.violation({'kind': 'corr_chain', 'sources': [list(c) for c in chain], 'r': r, 'normal': vi}, msg, {'kind': kind})
     return st
 
 
@@ -375,6 +410,9 @@ NOISE_SETS = [
     (np.array([[0, 5], [1, 5], [2, 6]], dtype=np.int32), np.array([0, 0, 1])),
     (np.array([[0, 5], [1, 6], [2, 7], [3, 8]], dtype=np.int32), np.array([1, 0, 2, 0])),
     (np.array([[0], [0], [1], [2]], dtype=np.int32), np.array([0, 1, 1, 1])),
+    # real-valued data (as after generate_correlated / a nonlinear combination appended a float column)
+    (np.array([[0.0, 5.5], [1.0, 5.5], [2.0, 6.25], [0.0, 7.0]], dtype=np.float64), np.array([0, 0, 1, 1])),
+    (np.array([[0.5], [0.5], [1.5], [2.5]], dtype=np.float64), np.array([0, 1, 1, 0])),
 ]
 
 
@@ -472,12 +510,13 @@ def _dispatch(item):
     k, job = item
     if k == 'labels':
         return _labels_job(job)[0]
-    return {'corr': _corr_job, 'corr_long': _corr_long, 'seq': _seq_job, 'noise_ctrl': _noise_ctrl_job, 'noise_seed': _noise_seed_job, 'down': _down_job}[k](job)
+    return {'corr': _corr_job, 'corr_chain': _corr_chain, 'corr_long': _corr_long, 'seq': _seq_job, 'noise_ctrl': _noise_ctrl_job, 'noise_seed': _noise_seed_job, 'down': _down_job}[k](job)
 
 
 def run(ctx):
     jobs = [('corr', (lo, hi)) for lo, hi in shards(78, 26)]
     jobs.append(('corr_long', None))
+    jobs += [('corr_chain', (lo, hi)) for lo, hi in shards(78, 6)]
     nm = len(call_menu())
     jobs += [('seq', (1, 0, nm))]
     short = 12
@@ -509,6 +548,8 @@ def eval_case(case):
     if k == 'correlated':
         n = len(case['cols'][0])
         return [m for _, m in judge_correlated(case['cols'], case['indices'], case['r'], normal_menu(n)[case['normal']])]
+    if k == 'corr_chain':
+        return [m for _, m in judge_chain([tuple(c) for c in case['sources']], case['r'], normal_menu(4)[case['normal']])]
     if k == 'sequence':
         return [m for _, m in judge_sequence([tuple(c) for c in case['calls']])]
     if k == 'labels':
